@@ -1,5 +1,6 @@
 import GLua.Engines.Common
 import GLua.Spec.SemStep
+import GLua.Spec.AstScan
 
 /-
   Engine `S`: run a program (S-expression, docs/AST.md) on the reference semantics and compare the
@@ -101,7 +102,11 @@ def handle (ws : List String) : String :=
        | _ =>
          match compareOutcome spec impl with
          | none => "ok"
-         | some d => "SPEC " ++ d)
+         | some d =>
+           -- attribute the failure to a recorded finding only if the program contains that finding's shape
+           match knownFindingTags body with
+           | t :: _ => "SPEC KF:" ++ t ++ " " ++ d
+           | [] => "SPEC " ++ d)
   | "eval" :: fuel :: fa :: sexp =>   -- no comparison: print the Spec outcome
     (match parseChunk sexp with
      | none => "MODEL bad-sexp"
